@@ -14,6 +14,10 @@ typedef Problem<D> Prob;
 static double thr_jac(int S) { return S == 2 ? 1e-8 : S == 3 ? 1e-7 : 1e-6; }   // solver-dependent (DESIGN s7)
 // energy gradients involve cancellation between O(|E|/T) terms: worst observed on the thorough lattice 1.2e-10 / 3.4e-11 / 7.4e-10
 static double thr_egrad(int S) { return S == 4 ? 1e-6 : 1e-7; }
+// equal (or nearly equal) durations: the block systems are perfectly conditioned, so a much tighter figure applies
+static double thr_jac_uniform(int S) { return S == 2 ? 1e-12 : S == 3 ? 1e-11 : 1e-10; }   // worst observed 4.9e-16 / 4.0e-15 / 3.4e-14 (thorough lattice incl. N = 64)
+static double thr_egrad_uniform(int S) { return S == 2 ? 3e-12 : S == 3 ? 1e-10 : 2e-8; }   // worst observed 1.6e-15 / 3.3e-14 / 2.4e-11
+template <class P> static bool uniform_durations(const P &p) { for (int i = 1; i < p.N; ++i) if (std::fabs(p.T[i] - p.T[0]) > 1e-6 * p.T[0]) return false; return true; }
 static double thr_closed() { return 1e-11; }                                      // closed forms on published coefficients
 
 // d(energy of one piece)/d(coefficients) and explicit d/dT, exact formulas in long double
@@ -86,6 +90,7 @@ template <int S> struct Runner {
       }
       ++c.st.comparisons;
       c.st.obs(fmt("adjoint_gdC/%s", order_name(S)), worst);
+      if (uniform_durations(p)) { c.st.obs(fmt("adjoint_gdC(uniform durations)/%s", order_name(S)), worst); if (worst > thr_jac_uniform(S)) { fail("adjoint-gdC(uniform durations)", p, fmt("unit upstream on coefficient row %d coordinate %d: normalised error %.3g at output %d (tight threshold for equal durations)", r, d, worst, wi)); return; } }
       if (worst > thr_jac(S)) { fail("adjoint-gdC", p, fmt("unit upstream on coefficient row %d (seg %d, power %d) coordinate %d: normalised error %.3g at output %d", r, r / M, r % M, d, worst, wi)); return; }
     }
     for (int i = 0; i < N; ++i) {
@@ -162,6 +167,7 @@ template <int S> struct Runner {
       for (int i = 0; i < N; ++i) { double e = (double)(fabsl((LD)g.times(i) - gT[i]) * (LD)p.T[i] / G); if (e > worst) { worst = e; wi = i; } }
       for (int d = 0; d < D; ++d) { std::vector<double> lib = grads_data_vec<S>(g, N, d); for (int b = 0; b < nb; ++b) { double e = (double)(fabsl((LD)lib[b] - gX[d][b]) * cs[b] / G); if (e > worst) { worst = e; wi = 100 + d * 100 + b; } } }
       ++c.st.comparisons; c.st.obs(fmt("%s/%s", what, order_name(S)), worst);
+      if (uniform_durations(p)) { c.st.obs(fmt("%s(uniform durations)/%s", what, order_name(S)), worst); if (worst > thr_egrad_uniform(S)) { fail(std::string(what) + "(uniform durations)", p, fmt("normalised error %.3g at output %d (tight threshold for equal durations)", worst, wi)); return; } }
       if (worst > thr) fail(what, p, fmt("normalised error %.3g at output %d (100+100*dim+b = data component b)", worst, wi));
     };
     Grads g = sp.getEnergyGrad();
